@@ -833,9 +833,11 @@ def _inline_iterables(fn: ast.FunctionDef) -> ast.FunctionDef:
     cands: dict = {}
     for n in ast.walk(fn):
         if isinstance(n, ast.Assign) and len(n.targets) == 1 and isinstance(n.targets[0], ast.Name) and isinstance(n.value, ast.Call) \
-                and isinstance(n.value.func, ast.Name) and n.value.func.id in ("range", "count", "zip", "enumerate", "reversed") \
+                and ((isinstance(n.value.func, ast.Name) and n.value.func.id in ("range", "count", "zip", "enumerate", "reversed"))
+                     or (isinstance(n.value.func, ast.Attribute) and isinstance(n.value.func.value, ast.Name) and n.value.func.value.id == "itertools"
+                         and n.value.func.attr == "count")) \
                 and len(binds.get(n.targets[0].id, [])) == 1 and len(uses.get(n.targets[0].id, [])) == 1 and n.targets[0].id not in params:
-            free = {x.id for x in ast.walk(n.value) if isinstance(x, ast.Name)} - {n.value.func.id}
+            free = {x.id for x in ast.walk(n.value) if isinstance(x, ast.Name)} - {n.value.func.id if isinstance(n.value.func, ast.Name) else "itertools"}
             if all(len(binds.get(v, [])) <= (0 if v in params else 1) for v in free):
                 cands[n.targets[0].id] = n
     if not cands:
